@@ -37,6 +37,9 @@ from engine.pyx import PyxFile, if_chain_byte_tests, bytes_literal
 LEVEL = 'proof'
 
 
+CONDITIONAL: Dict[str, Set[str]] = {}      # regex name -> characters it escapes only under a look-around condition
+
+
 def regex_charset(rx: Regex, what: str) -> Set[str]:
     """Set of single characters matched by a regex that must be a pure alternation/class of literals."""
     try:
@@ -62,6 +65,14 @@ def regex_charset(rx: Regex, what: str) -> Set[str]:
         elif op is sre_c.BRANCH:
             for alt in av[1]:
                 alt = list(alt)
+                lits = [x for x in alt if x[0] in (sre_c.LITERAL, sre_c.IN)]
+                looks = [x for x in alt if x[0] in (sre_c.ASSERT, sre_c.ASSERT_NOT)]
+                if len(lits) == 1 and len(lits) + len(looks) == len(alt) and looks:
+                    # `c(?!x)` / `(?<=x)c`: the character is escaped only in some contexts and left raw in the others
+                    before = set(out)
+                    one(*lits[0])
+                    CONDITIONAL.setdefault(what, set()).update(out - before)
+                    continue
                 if len(alt) != 1:
                     raise AnalysisError(f'{what}: alternative of length {len(alt)} in escape regex (must be single characters)')
                 one(*alt[0])
@@ -247,8 +258,9 @@ def run(ctx: Any, prog: Program) -> None:
                 if len(seen) > 4000:
                     raise AnalysisError('Tokenizer._handle_string: more than 4000 loop-carried states; not a finite-state handler')
                 have = [] if (last == NOLAST or not track_acc) else [last]
-                for c in alphabet:
-                    escaped = c is not OTHER and c in S
+                cond_chars = CONDITIONAL.get('ESCAPE_MULTILINE_RE' if mode == 'multiline' else 'ESCAPE_RE', set())
+                variants = [(c, c is not OTHER and c in S) for c in alphabet] + [(c, False) for c in alphabet if c is not OTHER and c in cond_chars]
+                for c, escaped in variants:
                     unit = list(INV[c]) if escaped else [c]
                     out = iterate(unit, env=st, have=have)
                     if acc in out.reads_before_write and not track_acc:
@@ -283,7 +295,7 @@ def run(ctx: Any, prog: Program) -> None:
         # report one instance per (mode, unit): ok iff it holds from every reachable state
         per_unit: Dict[str, Any] = {}
         for st, c, escaped, unit, out, ok, have in results:
-            k = repr(c)
+            k = repr(c) + ('' if escaped or c is OTHER or c not in S else ' raw')
             cur = per_unit.get(k)
             if cur is None or (cur[0] and not ok):
                 per_unit[k] = (ok, st, c, escaped, unit, out, have)
@@ -294,7 +306,8 @@ def run(ctx: Any, prog: Program) -> None:
                 ctx.check('C02.T3', ok, tk, loop, f'{mode}: unit {"".join(unit)!r} read in handler state {stdesc}{after} must append {c!r} and consume exactly 2 characters; got {out!r}',
                           text=f'{mode} escaped unit {"".join(unit)!r}')
             else:
-                ctx.check('C02.T3', ok, tk, loop, f'{mode}: raw character {show(c)} is left unescaped by escape_text, so read in handler state {stdesc}{after} it must be appended '
+                ctx.check('C02.T3', ok, tk, loop, f'{mode}: raw character {show(c)} is left unescaped by escape_text' + (' in some contexts (the escape regex matches it only under a look-around condition)' if c is not OTHER and c in S else '')
+                          + f', so read in handler state {stdesc}{after} it must be appended '
                           f'unchanged, consuming exactly 1 character; got {out!r}', text=f'{mode} raw char {show(c)}')
         if track_acc:
             ctx.note(f'{mode}: the handler inspects its accumulator; its last element was made part of the state')
@@ -394,6 +407,7 @@ def run(ctx: Any, prog: Program) -> None:
 
 
 MUTANTS = [
+    {'id': 'multiline_cr_before_lf_left_raw', 'file': 'tokenizer.py', 'find': "ESCAPE_MULTILINE_RE = re.compile('|'.join(\n    re.escape(c) for c in ESCAPES_INV", 'replace': "ESCAPE_MULTILINE_RE = re.compile('|'.join(\n    re.escape(c) + ('(?!\\n)' if c == '\\r' else '') for c in ESCAPES_INV", 'expect': 'C02.T3'},
     {'id': 'escaped_quote_before_newline_ends_string', 'file': 'tokenizer.py', 'find': "                elif escape == '\\n':\n                    continue  # Allow \\ at the end of a line to skip.\n", 'replace': "                elif escape == '\\n':\n                    continue  # Allow \\ at the end of a line to skip.\n                elif escape == '\"' and self._peek_char() in (None, '\\r', '\\n'):\n                    value_chars.append('\\\\')\n                    return Token.STRING, ''.join(value_chars)\n", 'extra': [{'file': 'tokenizer.py', 'find': "    def _get_token(self) -> tuple[Token, str]:\n        \"\"\"Return the next token, value pair.\"\"\"", 'replace': "    def _peek_char(self) -> Optional[str]:\n        char = self._next_char()\n        self._char_index -= 1\n        return char\n\n    def _get_token(self) -> tuple[Token, str]:\n        \"\"\"Return the next token, value pair.\"\"\""}], 'expect': 'C02.T3'},
     {'id': 'escape_text_memo_ignores_mode', 'file': 'tokenizer.py', 'find': "    return (ESCAPE_MULTILINE_RE if multiline else ESCAPE_RE).sub(_escape_matcher, text)", 'replace': "    if text in _PLAIN_TEXT:\n        return text\n    result = (ESCAPE_MULTILINE_RE if multiline else ESCAPE_RE).sub(_escape_matcher, text)\n    if result is text:\n        _PLAIN_TEXT.add(text)\n    return result", 'extra': [{'file': 'tokenizer.py', 'find': "def _escape_matcher(match", 'replace': "_PLAIN_TEXT: set = set()\n\n\ndef _escape_matcher(match"}], 'expect': 'C02.T2'},
     {'id': 'raw_newline_eats_decoded_backslash', 'file': 'tokenizer.py', 'find': "                self.line_num += 1\n            else:\n                last_was_cr = False\n", 'replace': "                self.line_num += 1\n                if value_chars and value_chars[-1] == '\\\\':\n                    value_chars.pop()\n                    continue\n            else:\n                last_was_cr = False\n", 'expect': 'C02.T3'},
